@@ -249,7 +249,7 @@ def bad3 (cid : Nat) (a : Action) (r : Reg) : Prop :=
 theorem pass3One_Has (cid : Nat) (st : RState) (a : Action) (h : Has cid st) : Has cid (pass3One st a) := by
   unfold pass3One
   split
-  · have : ∀ (l : List (End × AdaptaVerif.Model.ActionQueue.Pt)) (st : RState), Has cid st →
+  · have : ∀ (l : List (End × AdaptaVerif.Model.ActionQueue.CEnd)) (st : RState), Has cid st →
         Has cid (l.foldl (fun st u => endpointChanged a.id st u.1) st) := by
       intro l; induction l with
       | nil => intro st h; exact h
@@ -270,7 +270,7 @@ theorem pass3One_reg (cid : Nat) (st : RState) (a : Action) (r : Reg)
   cases hk : a.kind
   case connChange =>
     simp only [true_and]
-    have key := fold_reg cid (fun st (u : End × AdaptaVerif.Model.ActionQueue.Pt) => endpointChanged a.id st u.1)
+    have key := fold_reg cid (fun st (u : End × AdaptaVerif.Model.ActionQueue.CEnd) => endpointChanged a.id st u.1)
       (fun u r => r.touchesKey (VKey.ofEnd a.id u.1) = true ∨ a.id = cid)
       (fun st u h => endpointChanged_Has cid _ st u.1 h)
       (fun st u h => endpointChanged_Up cid _ st u.1 h)
@@ -292,7 +292,7 @@ theorem pass3One_reg (cid : Nat) (st : RState) (a : Action) (r : Reg)
       rcases key.2 with h2 | ⟨_, h3⟩
       · -- the flag went up although no step was bad: impossible to exclude, but the registration
         -- question is then moot only if we can still show membership; use the fold again
-        have : ∀ (l : List (End × AdaptaVerif.Model.ActionQueue.Pt)) (st : RState), r ∈ st.regs →
+        have : ∀ (l : List (End × AdaptaVerif.Model.ActionQueue.CEnd)) (st : RState), r ∈ st.regs →
             (∀ u ∈ l, r.touchesKey (VKey.ofEnd a.id u.1) = false) →
             r ∈ (l.foldl (fun st u => endpointChanged a.id st u.1) st).regs := by
           intro l; induction l with
